@@ -284,6 +284,9 @@ func (g *gen) typeRef(t *[]string, depth int) {
 	}
 	if g.r.Chance(1, 3) {
 		*t = append(*t, "!")
+		if g.r.Chance(1, 12) {
+			*t = append(*t, "!")
+		}
 	}
 }
 
